@@ -992,6 +992,8 @@ structure ParaV (src : List Str) (p : Para) : Prop where
   val : ∀ k v, (k, XV.s v) ∈ toDict p → v ≠ [] → ∃ r, (k, r) ∈ p.lines ∧ RangeR src r.1 r.2 v
   lval : ∀ kr ∈ p.lines, ∃ v, RangeR src kr.2.1 kr.2.2 v
   lic : p.kind = .license → licenseParaIsEmpty p = true → licKey ∉ p.lines.map (·.1)
+  lkeys : ∀ k ∈ p.lines.map (·.1), k ∈ (toDict p).map (·.1)
+  shape : LicShape p
 
 /-- a catch-all paragraph as `from_fields` builds it: its extra data and its ranges are the same entries, in order -/
 def ParaC (src : List Str) (p : Para) : Prop :=
@@ -1185,6 +1187,23 @@ theorem fromFields_V (src : List Str) (K : Kind) (g : List Fld) (B0 Bend : Nat)
       have := hinv.xout licKey h
       simp only [hne, if_false, license_fields, List.map_cons, List.map_nil] at this
       exact this (by simp)
+  · intro k hk
+    obtain ⟨kr, hkr, rfl⟩ := List.mem_map.mp hk
+    rw [hdict, List.map_append, List.mem_append]
+    rcases hinv.lpart kr hkr with h | h
+    · left
+      have := hinv.kin kr.1 h
+      by_cases hK : K = .catchall
+      · simp [hK] at this
+      · simp only [hK, if_false] at this
+        simpa [List.map_map, Function.comp_def] using this
+    · right
+      simpa [List.map_map, Function.comp_def, conv] using h
+  · intro hk
+    simp only at hk
+    subst hk
+    simp only [license_fields, List.map_cons, List.map_nil]
+    exact ⟨_, _, _, rfl⟩
 
 /-! ### C. all paragraphs, before the recovery rewrites -/
 
@@ -1420,7 +1439,7 @@ theorem mergeRun_V (src : List Str) (g : List Para) (m : Para) (hg : ∀ p ∈ g
     rw [hE] at h
     simp only [List.map_nil, List.isEmpty_nil, if_true] at h
     subst h
-    refine ⟨⟨by simp, ?_, ?_, by simp, by intro hk; cases hk⟩, rfl, Or.inl ⟨by rw [H2, hE]; rfl, rfl⟩⟩
+    refine ⟨⟨by simp, ?_, ?_, by simp, (by intro hk; cases hk), (by simp), (by intro hk; cases hk)⟩, rfl, Or.inl ⟨by rw [H2, hE]; rfl, rfl⟩⟩
     · rw [toDict_simple _ _ (by simp)]; simp
     · intro k v hkv _
       rw [toDict_simple _ _ (by simp)] at hkv
@@ -1469,8 +1488,12 @@ theorem mergeRun_V (src : List Str) (g : List Para) (m : Para) (hg : ∀ p ∈ g
       · rw [← heLr]; exact hL.last
       · rw [rangeWords_eq src _ _ hol.1, hv]
         exact chain_words src e es rE (fun x hx => (H3 x hx).2) hordE hrE
-    refine ⟨⟨by simp, ?_, ?_, ?_, by intro hk; cases hk⟩, rfl,
+    refine ⟨⟨by simp, ?_, ?_, ?_, (by intro hk; cases hk), ?_, (by intro hk; cases hk)⟩, rfl,
       Or.inr ⟨e.rng, rE, by rw [H2]; rfl, by rw [H2]; exact hrE, rfl⟩⟩
+    rotate_right
+    · intro k hk
+      rw [toDict_simple _ _ (by simp)]
+      simpa [conv] using hk
     · rw [toDict_simple _ _ (by simp)]; simp
     · intro k v hkv hv
       rw [toDict_simple _ _ (by simp)] at hkv
@@ -1591,5 +1614,268 @@ theorem mergeUnknown_V (src : List Str) (ps ps' : List Para) (hd : DocV src ps) 
   have hflat := (Props.C09G.groupByKind_flatten ps).1
   exact foldl_mstep_V src (groupByKind ps) [] ps' (fun g hg => (hprops g hg).2)
     (fun g hg q hq => hc q ((hprops g hg).1 q hq)) (by simpa [hflat] using hd) h
+
+/-! ### E. folding free text into an empty license -/
+
+theorem single_key_lines (src : List Str) (p : Para) (hv : ParaV src p) (text : Str) (hne : text ≠ [])
+    (hd : toDict p = [(unknownName, XV.s text)]) :
+    ∃ rng, p.lines = [(unknownName, rng)] ∧ RangeR src rng.1 rng.2 text := by
+  obtain ⟨r, hr, hrr⟩ := hv.val unknownName text (by rw [hd]; simp) hne
+  refine ⟨r, ?_, hrr⟩
+  -- every key of `lines` is the one key of the dictionary, and keys are distinct
+  have hk : ∀ kr ∈ p.lines, kr.1 = unknownName := by
+    intro kr hkr
+    have := hv.lkeys kr.1 (List.mem_map.mpr ⟨kr, hkr, rfl⟩)
+    rw [hd] at this
+    simpa using this
+  have hnd := hv.lnd
+  cases hl : p.lines with
+  | nil => rw [hl] at hr; cases hr
+  | cons a as =>
+    rw [hl] at hr hk hnd
+    have ha := hk a (by simp)
+    cases as with
+    | nil =>
+      simp only [List.mem_singleton] at hr
+      rw [hr]
+    | cons b bs =>
+      have hb := hk b (by simp)
+      simp only [List.map_cons, List.nodup_cons, List.mem_cons, not_or] at hnd
+      exact absurd (ha.trans hb.symm) hnd.1.1
+
+open Props.C07 Props.C11W in
+theorem fold_V (src : List Str) (p1 p2 : Para) (h1 : ParaV src p1) (h2 : ParaV src p2) (hc : foldCond p1 p2 = true)
+    (text : Str) (rng : Nat × Nat) (hd : toDict p2 = [(unknownName, XV.s text)]) (hl : p2.lines.lookup unknownName = some rng) :
+    ParaV src { setLicense p1 [] (some text) with lines := lset p1.lines "license".toList rng } ∧
+    lset p1.lines "license".toList rng = p1.lines ++ [(licKey, rng)] ∧ p2.lines = [(unknownName, rng)] := by
+  have hc0 := hc
+  unfold foldCond at hc
+  simp only [Bool.and_eq_true, decide_eq_true_eq] at hc
+  obtain ⟨⟨⟨⟨hk, hempty⟩, _⟩, _⟩, htruthy⟩ := hc
+  have htne : text ≠ [] := by
+    rw [hd] at htruthy
+    simp only [dvTruthy, Bool.not_eq_true', List.isEmpty_eq_false_iff] at htruthy
+    exact htruthy
+  obtain ⟨r, hlines2, hrr⟩ := single_key_lines src p2 h2 text htne hd
+  have hrr' : r = rng := by
+    rw [hlines2] at hl
+    simp only [List.lookup, beq_self_eq_true, Option.some.injEq] at hl
+    exact hl
+  subst hrr'
+  obtain ⟨n, t, c, hf⟩ := h1.shape hk
+  have hnot := h1.lic hk hempty
+  have hlset : lset p1.lines "license".toList r = p1.lines ++ [(licKey, r)] := Props.C13P.lset_absent _ _ _ hnot
+  have hempty' := hempty
+  unfold licenseParaIsEmpty at hempty'
+  simp only [Bool.and_eq_true, Bool.not_eq_true'] at hempty'
+  obtain ⟨⟨⟨hex, hcom⟩, _⟩, _⟩ := hempty'
+  have hex' : p1.extra = [] := List.isEmpty_iff.mp hex
+  obtain ⟨_, hct⟩ := licenseOf_shape p1 n t c hf
+  rw [hct] at hcom
+  have hf' := setLicense_shape p1 n t c text hf
+  -- the two dictionary forms
+  have hd1 : toDict p1 = [(licKey, XV.s (dumps (FV.license n t))), (comKey, XV.s (dumps (FV.formatted c)))] := by
+    rw [toDict_eq, hex', hf]; rfl
+  have hd1' : toDict ({ setLicense p1 [] (some text) with lines := lset p1.lines "license".toList r } : Para) =
+      [(licKey, XV.s (dumps (FV.license [] (some text)))), (comKey, XV.s (dumps (FV.formatted c)))] := by
+    rw [toDict_eq]
+    have hex'' : ({ setLicense p1 [] (some text) with lines := lset p1.lines "license".toList r } : Para).extra = [] := by
+      simp only [setLicense]; exact hex'
+    rw [hex'']
+    simp only [List.foldl_nil]
+    show ((setLicense p1 [] (some text)).fields.map fun nf => ((nf.1, XV.s (dumps nf.2)) : Str × DV)) = _
+    rw [hf']; rfl
+  have hcomd : dumps (FV.formatted c) = [] := by
+    rcases optTruthy_false c hcom with rfl | rfl <;> rfl
+  refine ⟨⟨?_, ?_, ?_, ?_, ?_, ?_, ?_⟩, hlset, hlines2⟩
+  · show ((lset p1.lines "license".toList r).map (·.1)).Nodup
+    rw [hlset, List.map_append, List.nodup_append]
+    refine ⟨h1.lnd, by simp, ?_⟩
+    intro x hx y hy
+    simp only [List.map_cons, List.map_nil, List.mem_singleton] at hy
+    subst hy
+    intro e; subst e; exact hnot hx
+  · rw [hd1']
+    simp only [List.map_cons, List.map_nil]
+    have := com_ne_lic'
+    simp [List.nodup_cons, Ne.symm this]
+  · intro k v hkv hv
+    rw [hd1'] at hkv
+    simp only [List.mem_cons, Prod.mk.injEq, XV.s.injEq, List.not_mem_nil, or_false] at hkv
+    rcases hkv with ⟨rfl, rfl⟩ | ⟨rfl, rfl⟩
+    · refine ⟨r, ?_, rangeR_words src r.1 r.2 text _ hrr (words_license_text text)⟩
+      show (licKey, r) ∈ lset p1.lines "license".toList r
+      rw [hlset]; simp
+    · exact absurd hcomd hv
+  · intro kr hkr
+    have hkr' : kr ∈ lset p1.lines "license".toList r := hkr
+    rw [hlset] at hkr'
+    rcases List.mem_append.mp hkr' with h | h
+    · exact h1.lval kr h
+    · simp only [List.mem_singleton] at h; subst h; exact ⟨text, hrr⟩
+  · intro _ hemp2
+    -- the folded license has a text: it is not empty any more
+    exfalso
+    unfold licenseParaIsEmpty at hemp2
+    simp only [Bool.and_eq_true, Bool.not_eq_true'] at hemp2
+    have hlo := (licenseOf_shape ({ setLicense p1 [] (some text) with lines := lset p1.lines "license".toList r } : Para)
+      [] (some text) c (by exact hf')).1
+    rw [hlo] at hemp2
+    have := hemp2.2
+    simp only [optTruthy, Bool.not_eq_false', List.isEmpty_iff] at this
+    exact htne this
+  · intro k hk'
+    have hk2 : k ∈ (lset p1.lines "license".toList r).map (·.1) := hk'
+    rw [hlset, List.map_append, List.mem_append] at hk2
+    rw [hd1']
+    rcases hk2 with h | h
+    · have := h1.lkeys k h
+      rw [hd1] at this
+      simpa using this
+    · simp only [List.map_cons, List.map_nil, List.mem_singleton] at h
+      subst h; simp
+  · intro _
+    exact ⟨_, _, _, hf'⟩
+
+def lastRanges (ps : List Para) (fp : Bool) : List (Nat × Nat) :=
+  if fp then [] else match ps.getLast? with | some l => ranges [l] | none => []
+
+def inRanges (ps : List Para) (b : Bool) : List (Nat × Nat) := if b then ranges ps.tail else ranges ps
+
+open Props.C07 Props.C11W in
+/-- the fold keeps the list of ranges: a folded license takes over the one range of the paragraph folded into it -/
+theorem foldLoop_V (src : List Str) (ps : List Para) (hne : ps ≠ []) (hv : ∀ p ∈ ps, ParaV src p) (b : Bool)
+    (out : List Para) (fp : Bool) (h : foldLoop ps b = .ok (out, fp)) :
+    (∀ q ∈ out, ParaV src q) ∧ ranges out ++ lastRanges ps fp = inRanges ps b := by
+  induction ps generalizing b out fp with
+  | nil => exact absurd rfl hne
+  | cons p1 rest ih =>
+    cases rest with
+    | nil =>
+      simp only [foldLoop, Except.ok.injEq, Prod.mk.injEq] at h
+      obtain ⟨rfl, rfl⟩ := h
+      refine ⟨by simp, ?_⟩
+      cases b <;> simp [lastRanges, inRanges, ranges]
+    | cons p2 rest' =>
+      have hlast : ∀ fp', lastRanges (p1 :: p2 :: rest') fp' = lastRanges (p2 :: rest') fp' := by
+        intro fp'; simp [lastRanges, List.getLast?_cons_cons]
+      have hv2 : ∀ p ∈ p2 :: rest', ParaV src p := fun p hp => hv p (by simp [hp])
+      rw [foldLoop_unfold] at h
+      by_cases hb : b = true
+      · subst hb
+        simp only [if_true] at h
+        obtain ⟨h1, h2⟩ := ih (by simp) hv2 false out fp h
+        refine ⟨h1, ?_⟩
+        rw [hlast, h2]; simp [inRanges]
+      · have hb' : b = false := by simpa using hb
+        subst hb'
+        simp only [Bool.false_eq_true, if_false] at h
+        by_cases hc : foldCond p1 p2 = true
+        · simp only [hc, if_true] at h
+          -- the shape of the second paragraph
+          cases hd : toDict p2 with
+          | nil => rw [hd] at h; simp at h
+          | cons kv kvs =>
+            cases kvs with
+            | cons _ _ => rw [hd] at h; simp at h
+            | nil =>
+              obtain ⟨k, dv⟩ := kv
+              cases dv with
+              | emptyList => rw [hd] at h; simp at h
+              | s text =>
+                cases hl : p2.lines.lookup unknownName with
+                | none => rw [hd, hl] at h; simp at h
+                | some rng =>
+                  rw [hd, hl] at h
+                  simp only at h
+                  cases hrec : foldLoop (p2 :: rest') true with
+                  | error e => rw [hrec] at h; simp at h
+                  | ok res =>
+                    obtain ⟨out2, fp2⟩ := res
+                    rw [hrec] at h
+                    simp only [Except.ok.injEq, Prod.mk.injEq] at h
+                    obtain ⟨rfl, rfl⟩ := h
+                    have hk : k = unknownName := by
+                      have hc' := hc
+                      unfold foldCond at hc'
+                      simp only [Bool.and_eq_true, decide_eq_true_eq] at hc'
+                      have := hc'.1.2
+                      rw [hd] at this
+                      simpa using this
+                    subst hk
+                    obtain ⟨hp1', hls, hl2⟩ := fold_V src p1 p2 (hv p1 (by simp)) (hv p2 (by simp)) hc text rng hd hl
+                    obtain ⟨h1, h2⟩ := ih (by simp) hv2 true out2 fp2 hrec
+                    refine ⟨?_, ?_⟩
+                    · intro q hq
+                      rcases List.mem_cons.mp hq with rfl | hq
+                      · exact hp1'
+                      · exact h1 q hq
+                    · rw [hlast]
+                      have e1 : ranges (({ setLicense p1 [] (some text) with lines := lset p1.lines "license".toList rng } : Para) :: out2) =
+                          (p1.lines.map (·.2) ++ [rng]) ++ ranges out2 := by
+                        simp only [ranges, List.flatMap_cons, hls, List.map_append, List.map_cons, List.map_nil]
+                      rw [e1, List.append_assoc, h2]
+                      simp [inRanges, ranges, hl2]
+        · have hc' : foldCond p1 p2 = false := by simpa using hc
+          simp only [hc', Bool.false_eq_true, if_false] at h
+          cases hrec : foldLoop (p2 :: rest') false with
+          | error e => rw [hrec] at h; simp at h
+          | ok res =>
+            obtain ⟨out2, fp2⟩ := res
+            rw [hrec] at h
+            simp only [Except.ok.injEq, Prod.mk.injEq] at h
+            obtain ⟨rfl, rfl⟩ := h
+            obtain ⟨h1, h2⟩ := ih (by simp) hv2 false out2 fp2 hrec
+            refine ⟨?_, ?_⟩
+            · intro q hq
+              rcases List.mem_cons.mp hq with rfl | hq
+              · exact hv q (by simp)
+              · exact h1 q hq
+            · rw [hlast]
+              have : ranges (p1 :: out2) = ranges [p1] ++ ranges out2 := by simp [ranges]
+              rw [this, List.append_assoc, h2]
+              simp [inRanges, ranges]
+
+theorem foldLicense_V (src : List Str) (ps ps' : List Para) (hd : DocV src ps) (h : foldLicense ps = .ok ps') : DocV src ps' := by
+  unfold foldLicense at h
+  by_cases hlen : ps.length ≤ 2
+  · simp only [hlen, if_true, Except.ok.injEq] at h
+    subst h; exact hd
+  · simp only [hlen, if_false] at h
+    have hne : ps ≠ [] := by intro e; rw [e] at hlen; simp at hlen
+    cases hrec : foldLoop ps false with
+    | error e => rw [hrec] at h; simp at h
+    | ok res =>
+      obtain ⟨out, fp⟩ := res
+      rw [hrec] at h
+      simp only at h
+      obtain ⟨h1, h2⟩ := foldLoop_V src ps hne hd.paras false out fp hrec
+      simp only [inRanges, Bool.false_eq_true, if_false] at h2
+      cases fp with
+      | true =>
+        simp only [if_true, Except.ok.injEq] at h
+        subst h
+        refine ⟨h1, ?_⟩
+        have : ranges out = ranges ps := by simpa [lastRanges] using h2
+        rw [this]; exact hd.ord
+      | false =>
+        simp only [Bool.false_eq_true, if_false] at h
+        cases hl : ps.getLast? with
+        | none => exact absurd (List.getLast?_eq_none_iff.mp hl) hne
+        | some last =>
+          rw [hl] at h
+          simp only [Except.ok.injEq] at h
+          subst h
+          refine ⟨?_, ?_⟩
+          · intro q hq
+            rcases List.mem_append.mp hq with hq | hq
+            · exact h1 q hq
+            · simp only [List.mem_singleton] at hq
+              subst hq
+              exact hd.paras q (List.mem_of_getLast? hl)
+          · rw [ranges_append]
+            have : lastRanges ps false = ranges [last] := by simp [lastRanges, hl]
+            rw [this] at h2
+            rw [h2]; exact hd.ord
 
 end Props.C10R
